@@ -30,6 +30,33 @@ contract(T + ".translate", "C12", params={"template": "union:str|obj:mRNA"}, cal
          })
 
 
+# template analysis: every match of the three variable forms contributes exactly one codon -- required exactly for the plain form {{x}} -- and the
+# accumulated list is what the template keeps ("missing variables are reported": get_required_variables reads these codons)
+shape("Codon", codon_type="enum:CodonType", name="str", default="opt:str", required="bool")
+
+
+def _codon_step(req):
+    return {"invariant": ["len(codons) >= 0"], "types": {"codons": "list:obj:Codon"},
+            "step": {"one-codon-per-match": "len(codons) == len(at_head(codons)) + 1 and codons[len(codons) - 1].required is %s and "
+                                            "codons[len(codons) - 1].codon_type == CodonType.VARIABLE" % req},
+            "property_level": ["one-codon-per-match"], "exhaustive": True}
+
+
+contract(F + "::mRNA._detect_codons", "C12", raises=[], callbacks={"*.group": {"returns": "str", "raises": ()}},
+         loops={"for match in re.finditer('\\\\{\\\\{(\\\\w+)\\\\}\\\\}', self.sequence)": _codon_step("True"),
+                "for match in re.finditer('\\\\{\\\\{\\\\?(\\\\w+)\\\\}\\\\}', self.sequence)": _codon_step("False"),
+                "for match in re.finditer('\\\\{\\\\{(\\\\w+)\\\\|([^}]*)\\\\}\\\\}', self.sequence)": _codon_step("False")},
+         ensures={"every-detected-codon-is-returned": "is_bound('codons') and result is codons"})
+
+# template registration: the template object rendered later under a name is the one registered under it; other names are untouched
+contract(F + "::Ribosome.register_template", "C12", params={"template": "obj:mRNA", "name": "opt:str"}, raises=["ValueError"], modifies=["self.templates"],
+         ghost_params={"q": "str"},
+         ensures={"registered-under-the-given-name": "implies(name is not None and len(name) > 0, name in self.templates and self.templates[name] is template)",
+                  "other-templates-untouched": "implies(q != (name if (name is not None and len(name) > 0) else template.name), "
+                                               "(q in self.templates) == (q in old(self).templates))"},
+         xensures={"a-nameless-template-is-refused": "(name is None or len(name) == 0) and len(template.name) == 0"})
+
+
 def native_replay(rep):
     import os, sys
     sys.path.insert(0, os.path.dirname(os.path.dirname(os.path.abspath(__file__))))
